@@ -34,7 +34,7 @@ theorem resolveFwd_of_local_done (cfg : FwdCfg) (fuel : Nat) (st : St) (q : Ques
   subst h
   rfl
 
-theorem REC_FUEL_succ : REC_FUEL = 99999 + 1 := rfl
+theorem REC_FUEL_succ : REC_FUEL = 999999 + 1 := rfl
 
 /-- `resolve_recursive`: a finished local result is the reply; the exchange log stays empty. -/
 theorem resolveRecursive_of_local_done (cfg : RecCfg) (ctx : Ctx) (q : Question) (res : ResolvedRecord)
@@ -43,7 +43,7 @@ theorem resolveRecursive_of_local_done (cfg : RecCfg) (ctx : Ctx) (q : Question)
     resolveRecursive cfg ctx q =
       ({ ctx := (resolveLocal (RECURSION_LIMIT + 1) ctx q).1, run := Run.empty }, .ok res) := by
   unfold resolveRecursive
-  rw [REC_FUEL_succ, resolveRec_of_local_done cfg 99999 { ctx := ctx, run := Run.empty } q res rfl hl hd h]
+  rw [REC_FUEL_succ, resolveRec_of_local_done cfg 999999 { ctx := ctx, run := Run.empty } q res rfl hl hd h]
   rfl
 
 /-- `resolve_forwarding`: likewise. -/
@@ -53,7 +53,7 @@ theorem resolveForwarding_of_local_done (cfg : FwdCfg) (ctx : Ctx) (q : Question
     resolveForwarding cfg ctx q =
       ({ ctx := (resolveLocal (RECURSION_LIMIT + 1) ctx q).1, run := Run.empty }, .ok res) := by
   unfold resolveForwarding
-  rw [REC_FUEL_succ, resolveFwd_of_local_done cfg 99999 { ctx := ctx, run := Run.empty } q res rfl hl hd h]
+  rw [REC_FUEL_succ, resolveFwd_of_local_done cfg 999999 { ctx := ctx, run := Run.empty } q res rfl hl hd h]
   rfl
 
 /-! ## every authoritative reply is the finished local result -/
